@@ -22,6 +22,9 @@ func (v *FnVC) instr(ins ssa.Instruction) {
 		v.alloc(x)
 	case *ssa.Store:
 		p := v.placeOf(x.Addr)
+		if p.Kind == "global" && v.fn.Name() != "init" {
+			v.unsupported("store to package-level variable " + p.Key)
+		}
 		v.checkPlace(p, x.Pos())
 		v.ghostAtStore(x, p)
 		v.store(p, v.val(x.Val).S, x.Pos())
